@@ -73,6 +73,9 @@ def main():
                 acc.count("insitu_violations_seen_but_not_owned")
                 acc.note(f"in-situ contract {v['signature']} fired during this workload: {v['message'][:120]}")
         res = acc.to_json()
+        for v in res.get("violations", []):
+            if isinstance(v.get("case"), dict):
+                v["case"].setdefault("pythonhashseed", int(os.environ.get("PYTHONHASHSEED", "0") or 0))
         res["sets"]["functions_entered"] = instrument.functions_entered()
         with open(out_path, "w") as f:
             json.dump(res, f)
